@@ -834,9 +834,14 @@ def cmd_check(prop, tier):
     for l in lines:
         print(l)
     sys.stdout.flush()
-    if repo_inputs_digest() != ctx.inputs or sha256_file(ctx.pavexc) != ctx.binsha:
-        harness_error("the sources of /repo/runtime (inputs of every execution) or the pavexc binary changed while the batch "
-                      "was running; the results above are not trustworthy, run the check again")
+    changed = []
+    if repo_inputs_digest() != ctx.inputs:
+        changed.append("sources under /repo/{" + ",".join(REPO_INPUT_DIRS) + "} (inputs of every execution)")
+    if sha256_file(ctx.pavexc) != ctx.binsha:
+        changed.append("the pavexc binary " + ctx.pavexc)
+    if changed:
+        harness_error(" and ".join(changed) + " changed while the batch was running (somebody is editing /repo); "
+                      "the results above are not trustworthy, run the check again")
     if divergences:
         harness_error("nondeterminism: the same history gave different executions twice: " + "; ".join(divergences[:3]))
     if inexact:
